@@ -339,6 +339,10 @@ def run(ctx):
             # once per shard, whatever the draw: stored observations next to live tasking with a consumer whose sensors see nothing
             case.update({"imported_obs": True, "dup_obs": False, "obs_next_to_live_tasking": True, "blind_consumer": True, "gap": None, "late": None,
                          "edit": "exact", "extra_agents": 0, "steps": max(case["steps"], 4)})
+        elif i == 2 and ctx.shard % 2 == 0:
+            # a large importer database (> 10000 ephemeris rows, mostly of unrelated agents): still read-only
+            case.update({"edit": "superset", "extra_agents": 3000, "gap": None, "steps": max(case["steps"], 4)})
+            ctx.count("large_importer_cases")
         elif i == 1 and not case["late"] and len(case["net"]["targets"]) >= 2 and case["imported"] in ("targets", "both") and case["gap"] is None:
             case["late"] = [case["net"]["targets"][-1]["id"], 1]  # and a target that joins the importer-driven run late
         ok = eval_case(ctx, case)
